@@ -46,6 +46,8 @@ POOLS = (1, 2, 4, 8)
 
 def gen_case(rng, tier, idx):
     from vpmon import gen_graph as G
+    if idx < (1 if tier == "quick" else 6):
+        return {"kind": "realgraph", "archive_seed": rng.getrandbits(30), "fault_rate": rng.choice([0.2, 0.5]), "ext_seed": rng.getrandbits(32)}
     if idx % 5 == 4:
         # a collection-like graph of real spec factories, persisted while it runs (what insights.collect does)
         from vpmon.props import c11
@@ -63,6 +65,8 @@ def nontrivial(spec):
     from vpmon import gen_graph as G
     if spec.get("kind") == "collect":
         return len(spec["collect"]["specs"]) >= 3
+    if spec.get("kind") == "realgraph":
+        return True
     nodes = spec["graph"]["nodes"]
     parts = collections.Counter(nd["part"] for nd in nodes)
     if sum(1 for p, k in parts.items() if k >= 2) >= 2:
@@ -272,12 +276,53 @@ def run_collect(spec, ctx):
         shutil.rmtree(base, ignore_errors=True)
 
 
+def run_realgraph(spec, ctx):
+    """the repository's own ~2 600 components: serial vs incremental vs thread pools"""
+    from vpmon import realgraph as R
+    root, treat = R.make_archive(spec["archive_seed"], spec["fault_rate"])
+    old_switch = sys.getswitchinterval()
+    try:
+        events, brokers, raised, g = R.evaluate(root, "serial")
+        d0 = R.digest(brokers)
+        ctx.count("real_graph_evaluations")
+        ctx.count("components_valued", len(d0[0]))
+        ctx.count("failures_recorded", sum(len(v) for v in d0[1].values()))
+        sys.setswitchinterval(1e-6)
+        for mode, w in (("incremental", 0), ("pool", 2), ("pool", 4), ("pool", 8)):
+            events, brokers, raised, g = R.evaluate(root, mode, w)
+            ctx.count("real_graph_evaluations")
+            if mode == "pool":
+                ctx.count("pool_runs")
+                ctx.seen("_interleavings", hash(tuple(e[1] for e in events if e[2] == "set")[:4000]) & 0xffffffffffff)
+            if raised is not None:
+                ctx.violation("exception-escaped-evaluation", {"mode": mode, "pool": w, "exc": repr(raised)[:300]})
+                continue
+            d = R.digest(brokers)
+            if d != d0:
+                diff = {}
+                for name, a, b_ in (("values", d0[0], d[0]), ("failures", d0[1], d[1])):
+                    for k in sorted(set(a) | set(b_)):
+                        if a.get(k) != b_.get(k) and len(diff) < 4:
+                            diff["%s[%s]" % (name, k)] = {"serial": a.get(k), mode: b_.get(k)}
+                for k in sorted(d0[2] ^ d[2])[:3]:
+                    diff["missing[%s]" % k] = {"serial": k in d0[2], mode: k in d[2]}
+                mech = "result-differs-under-" + mode
+                if "dictionary changed size during iteration" in json.dumps(diff, default=repr):
+                    mech = "shared-broker-iterated-while-worker-threads-fill-it"
+                ctx.violation(mech, {"workload": "the repository's own component graph", "pool": w, "diff": diff})
+    finally:
+        sys.setswitchinterval(old_switch)
+        R.cleanup(root)
+
+
 def run_case(spec, ctx):
     from concurrent.futures import ThreadPoolExecutor
     from insights.core import dr
     from vpmon import gen_graph as G
     if spec.get("kind") == "collect":
         return run_collect(spec, ctx)
+    if spec.get("kind") == "realgraph":
+        return run_realgraph(spec, ctx)
     g = spec["graph"]
     b = G.build(g)
     rng = random.Random(spec["ext_seed"])
@@ -437,7 +482,7 @@ def run_shard(ctx):
     seeds = range(8) if ctx.tier == "quick" else range(24)
     scratch = os.environ.get("VERIF_SCRATCH") or "/tmp"
     path = os.path.join(scratch, "c04_specs_%d.json" % ctx.shard)
-    batch = [c for c in cases if "_d0" in c and c.get("kind") != "collect"]
+    batch = [c for c in cases if "_d0" in c and c.get("kind") not in ("collect", "realgraph")]
     with open(path, "w") as f:
         f.write(jdump([dict((k, v) for k, v in c.items() if k != "_d0") for c in batch]))
     orders = collections.defaultdict(set)
